@@ -6,11 +6,12 @@
   threads exist and none can move (`progress`, `wr_step`, `no_deadlock`).
   Table part (`Gozod.Gen.LockOrder.table`, regenerated from every non-test file of the library): with callbacks
   that take no library lock every locking function keeps the discipline (`lockorder_disciplined`), for the rank
-  computed from the table's own acquired-while-holding relation; the only place where code the library does not
-  control runs under a lock is `Registry.Range` (`cb_under_lock_sites`).
-  Witness: a `Range` callback that calls back into the registry (`Get`, as every chaining method does for
-  `GlobalRegistry`) breaks the discipline and the model thread is stuck (`range_reenter_undisciplined`,
-  `range_reenter_stuck`).
+  computed from the table's own acquired-while-holding relation; since /repo 1703379 no code the library does not
+  control runs under a lock (`cb_under_lock_sites` = []), so the discipline holds whatever callbacks do
+  (`lockorder_disciplined_any_callback`).
+  Witness about the legacy `Registry.Range` (callback under the read lock): a callback that calls back into the
+  registry (`Get`, as every chaining method does for `GlobalRegistry`) breaks the discipline and the model thread
+  is stuck (`range_reenter_undisciplined`, `range_reenter_stuck`).
 -/
 import Gozod.Model.LockOrder
 import Gozod.Gen.LockOrder
@@ -190,7 +191,17 @@ example : (mutexes Gen.LockOrder.table).length ≥ 3 ∧ Gen.LockOrder.table.len
 theorem lockorder_no_nesting : edges Gen.LockOrder.table = [] := by decide +kernel
 
 /-- the only place where the library runs code it does not control while holding a lock -/
-theorem cb_under_lock_sites : cbUnderLock Gen.LockOrder.table = [("core.Registry.Range", "f")] := by decide +kernel
+theorem cb_under_lock_sites : cbUnderLock Gen.LockOrder.table = [] := by decide +kernel
+
+/-- whatever a callback does — here: every locking function of the library in turn — the discipline holds, because no
+    callback runs under a lock any more -/
+theorem lockorder_disciplined_any_callback :
+    disciplined Gen.LockOrder.table (Gen.LockOrder.table.map (fun f => Ev.call f.name)) = true := by decide +kernel
+
+/-- `Registry.Range` before `fix: Range calls back outside the lock` -/
+def legacyTable : List Fn := [
+  ⟨"core.Registry.Get", [.acq "core.mu" false, .rel "core.mu"]⟩,
+  ⟨"core.Registry.Range", [.acq "core.mu" false, .cb "f", .rel "core.mu"]⟩]
 
 /-- every program made of calls of the table's locking functions (each call made while holding nothing, callbacks
     lock-free) is deadlock-free together with any number of such programs -/
@@ -210,16 +221,16 @@ theorem table_no_deadlock (calls : List (List Fn)) (hc : ∀ c ∈ calls, ∀ f 
   obtain ⟨q, hq, hw⟩ := disciplined_wr _ _ lockorder_disciplined f (hc c hcm f hf)
   simpa [hq] using hw
 
-/-- **Witness**: a `Range` callback that calls `Registry.Get` (every chaining method of every schema type does, on
+/-- **Witness** (legacy code): a `Range` callback that calls `Registry.Get` (every chaining method of every schema type does, on
     `GlobalRegistry`) re-acquires the registry mutex it runs under: the discipline is broken … -/
 theorem range_reenter_undisciplined :
-    disciplined Gen.LockOrder.table (body Gen.LockOrder.table "core.Registry.Get") = false := by decide +kernel
+    disciplined legacyTable (body legacyTable "core.Registry.Get") = false := by decide +kernel
 
 /-- … and in the model the thread is stuck after its first step (in Go: as soon as a writer — `Add`, `Remove`, any
     `Describe`/`Meta` — queues between the two read locks; at once when the callback itself writes). -/
 theorem range_reenter_stuck :
-    let p := (flatten Gen.LockOrder.table (order Gen.LockOrder.table) (body Gen.LockOrder.table "core.Registry.Get")
-      (fuelFor Gen.LockOrder.table) 0 (body Gen.LockOrder.table "core.Registry.Range")).getD []
+    let p := (flatten legacyTable (order legacyTable) (body legacyTable "core.Registry.Get")
+      (fuelFor legacyTable) 0 (body legacyTable "core.Registry.Range")).getD []
     let t1 := stepT ⟨[], p⟩
     p ≠ [] ∧ enabled [⟨[], p⟩] ⟨[], p⟩ = true ∧ t1.rest ≠ [] ∧ enabled [t1] t1 = false := by decide +kernel
 
